@@ -106,10 +106,26 @@ pub fn execute(sim: &mut Sim, op: &UserOp) {
             let mut o = std::mem::take(&mut sim.oracle);
             o.refresh_script_progress(sim);
             sim.oracle = o;
+            let pending_start = sim
+                .client
+                .as_ref()
+                .and_then(|c| c.storage.get_earliest_matched_blocks().map(|(s, _, _)| s));
+            let mf_before = sim
+                .client
+                .as_ref()
+                .map(|c| c.storage.get_min_filtered_block_number())
+                .unwrap_or(0);
             let r = rpc(sim, "set_scripts", params);
+            if let (Some(Ok(_)), Some(c)) = (r.as_ref(), sim.client.as_ref()) {
+                let mf_after = c.storage.get_min_filtered_block_number();
+                let genesis = !matches!(cmd, SetCmd::Delete) && list.iter().any(|(_, s)| *s == 0);
+                if mf_after < mf_before || genesis {
+                    sim.oracle.rewinds.push((mf_before, mf_after.min(mf_before), genesis));
+                }
+            }
             if let Some(Ok(_)) = r {
                 let mut o = std::mem::take(&mut sim.oracle);
-                o.model_set_scripts(cmd, &list);
+                o.model_set_scripts(cmd, &list, pending_start);
                 crate::oracle3::c09_after_set_scripts(&mut o, sim, cmd, &list);
                 sim.oracle = o;
             } else if let Some(Err(e)) = r {
